@@ -181,7 +181,10 @@ def typed_pool():
 
     out = []
     for rname, base in (("ytk", ytk.YTKPart), ("cidar", cidar.CIDARPart), ("ecoflex", ecoflex.EcoFlexPart)):
-        recs = [(key, rec) for r, key, cls, rec in regs.items() if r == rname and issubclass(cls, base) and len(key) <= 14]
+        # only plasmids that their part family can type (a few registry entries, e.g. CIDAR R0063_AB, are
+        # not valid under any part class: a directory registry cannot hold them, they are outside the quantifier)
+        recs = [(key, rec) for r, key, cls, rec in regs.items()
+                if r == rname and issubclass(cls, base) and len(key) <= 14 and cls(rec).is_valid()]
         out.append((base, rname, recs))
     return out
 
